@@ -247,7 +247,7 @@ def check_input(repo, rep, facts, depth):
     return n
 
 
-def check_always_finalised(repo, rep):
+def check_always_finalised(repo, rep, uni):
     ex = repo.module('yaql.language.expressions')
     st = ex.cls('Statement')
     init = st.methods.get('__init__')
@@ -299,9 +299,12 @@ def check_always_finalised(repo, rep):
     # the registered #finalize returns convert_output_data(obj, ...) unless
     # the host switched conversion off
     init = repo.module('yaql')
-    fz = init.functions.get('_setup_context.finalize')
-    if fz is None:
-        raise AnalysisError('anchor vanished: _setup_context.finalize')
+    fzs = [o.func for o in uni.reg.overloads
+           if o.ctx == 'finalizer' and o.name == '#finalize']
+    if not fzs:
+        raise AnalysisError('anchor vanished: the default #finalize '
+                            'registered by yaql._setup_context')
+    fz = fzs[0]
     ok = any(isinstance(r.value, ast.Call) and repo.resolve(
         init, r.value.func, model.scope_locals(fz)) ==
         UT + '.convert_output_data'
@@ -418,6 +421,6 @@ def run(repo, rep):
     extra = check_value_universe(repo, rep, uni, facts)
     n, nshapes = check_finaliser(repo, rep, facts, depth, extra)
     nin = check_input(repo, rep, facts, 2)
-    check_always_finalised(repo, rep)
+    check_always_finalised(repo, rep, uni)
     rep.count(shapes=nshapes, option_combinations=len(OPTS),
               finaliser_obligations=n, input_obligations=nin, depth=depth)
